@@ -184,6 +184,7 @@ class Corr:
         else:
             # There are no checks here yet. There are so many possible scenarios, where this can go wrong.
             if normalize:
+                vector_l, vector_r = list(vector_l), list(vector_r)
                 for t in range(self.T):
                     vector_l[t], vector_r[t] = vector_l[t] / np.sqrt((vector_l[t] @ vector_l[t])), vector_r[t] / np.sqrt(vector_r[t] @ vector_r[t])
 
@@ -1052,6 +1053,8 @@ class Corr:
     def __repr__(self, print_range=None):
         if print_range is None:
             print_range = [0, None]
+        else:
+            print_range = list(print_range)
 
         content_string = ""
         content_string += "Corr T=" + str(self.T) + " N=" + str(self.N) + "\n"  # +" filled with"+ str(type(self.content[0][0])) there should be a good solution here
